@@ -270,6 +270,16 @@ func (matrix *DenseReal32Matrix) T() Matrix {
   return matrix.MagicT()
 }
 func (matrix *DenseReal32Matrix) Tip() {
+  if matrix.rowOffset != 0 || matrix.colOffset != 0 || matrix.rows != matrix.rowMax || matrix.cols != matrix.colMax {
+    panic("Tip(): a sub-matrix view cannot be transposed in place")
+  }
+  if matrix.transposed {
+    // the storage holds the transposed matrix in row-major order already
+    matrix.transposed = false
+    matrix.rows, matrix.cols = matrix.cols, matrix.rows
+    matrix.rowMax, matrix.colMax = matrix.colMax, matrix.rowMax
+    return
+  }
   mn := len(matrix.values)
   visited := make([]bool, mn)
   k := 0
